@@ -78,11 +78,16 @@ Definition c01_invented (c : c01_case) : bool :=
 Definition c01_lost (c : c01_case) : bool :=
   negb (q_quiet c && sink_complete (chf (q_fans c)) cm_eqb (q_k c) (q_srcs c) (q_sink c)).
 
+(** a Nacked attempt was never followed up although the implementation says nothing is pending *)
+Definition c01_not_redelivered (c : c01_case) : bool :=
+  q_quiet c && negb (redelivery_ok cm_eqb (q_log c)).
+
 Definition c01_mismatches (cs : list c01_case) : list (nat * nat) :=
   filter (fun p => negb (Nat.eqb (snd p) 0)) (combine (seq 0 (length cs)) (map c01_mismatch cs)).
 Definition c01_log_violations (cs : list c01_case) : list nat := positions (map c01_log_bad cs).
 Definition c01_invented_violations (cs : list c01_case) : list nat := positions (map c01_invented cs).
 Definition c01_lost_violations (cs : list c01_case) : list nat := positions (map c01_lost cs).
+Definition c01_redelivery_violations (cs : list c01_case) : list nat := positions (map c01_not_redelivered cs).
 (** first logged delivery the monitor rejects (for the report) *)
 Definition c01_first_bad (c : c01_case) : list nat :=
   positions (map (fun d => negb (delivery_ok (chf (q_fans c)) cm_eqb d)) (q_log c)).
